@@ -195,9 +195,122 @@ static void compare(const json & after, const json & ctx, const std::string & op
     if (!unspec && count_blocks) expect_eq("lifecycle/live-storage-blocks/" + op, (long)g_live_arrays.load() - g_base_arrays, after["blocks"].get<long>(), ctx);
 }
 
+// ------------------------------------------------------------------ code -> spec: a random driver that logs what it did
+struct shadow { std::string st = "dead", ty = "none"; std::size_t n = 0; };   // the driver's own bookkeeping of what it has done
+
+static json project(const std::vector<shadow> & sh) {
+    json slots = json::array();
+    for (std::size_t s = 0; s < g_slots.size(); ++s) {
+        json o = {{"st", sh[s].st}, {"ty", "none"}, {"ext", json::array()}, {"size", 0}, {"vals", json::array()}};
+        if (sh[s].st == "live") {
+            std::visit([&](auto & f) {
+                using F = std::decay_t<decltype(f)>;
+                if constexpr (!std::is_same_v<F, std::monostate>) {
+                    o["ty"] = info<F>::ty;
+                    auto cfg = f.backend().get_configuration();
+                    std::vector<std::size_t> ext; std::size_t prod = 1;
+                    for (std::size_t k = 0; k < info<F>::N; ++k) { ext.push_back(cfg[k]); prod *= cfg[k]; }
+                    o["ext"] = ext;
+                    o["size"] = (std::size_t)f.backend().get_backend().get_configuration()[0];
+                    json vals = json::array();
+                    for (std::size_t cell = 0; cell < prod; ++cell) {
+                        std::vector<std::size_t> c(info<F>::N); std::size_t r = cell;
+                        for (std::size_t k = info<F>::N; k-- > 0;) { c[k] = r % ext[k]; r /= ext[k]; }
+                        vals.push_back({{"c", c}, {"v", (long)read_at(f, c)}});
+                    }
+                    o["vals"] = vals;
+                }
+            }, g_slots[s]);
+        }
+        slots.push_back(o);
+    }
+    return {{"slots", slots}};
+}
+
+static void drive(uint64_t seed, long execs, long nops, const char * path) {
+    rng r(seed);
+    std::ofstream out(path);
+    const char * layouts[] = {"strided", "morton", "morton_portable", "hilbert"};
+    long events = 0;
+    for (long e = 0; e < execs; ++e) {
+        out << json({{"e", "Reset"}}).dump() << "\n"; ++events;
+        g_slots.clear(); g_slots.resize(3); g_stream.clear();
+        std::vector<shadow> sh(3);
+        bool have_stream = false; std::string stream_ty; std::size_t stream_n = 0;
+        for (long k = 0; k < nops; ++k) {
+            // pick an enabled operation
+            for (int attempt = 0; attempt < 200; ++attempt) {
+                std::size_t s = r.below(3), d = r.below(3);
+                int op = (int)r.below(12);
+                json ev;
+                auto live = [&](std::size_t i) { return sh[i].st == "live"; };
+                auto assignable = [&](std::size_t i) { return sh[i].st != "dead"; };
+                if (op == 0 && sh[s].st == "dead") {
+                    std::size_t n = 1 + r.below(3);
+                    std::vector<std::size_t> ext(n); std::size_t prod = 1; for (auto & x : ext) { x = 1 + r.below(n == 1 ? 5 : 3); prod *= x; }
+                    ev = {{"e", "Construct"}, {"args", {{"s", s + 1}, {"ty", "strided"}, {"ext", ext}, {"size", prod}}}};
+                    do_step({{"op", "Construct"}, {"args", ev["args"]}}, {});
+                    sh[s] = {"live", "strided", n};
+                } else if (op == 1 && sh[s].st == "dead") {
+                    std::size_t n = 1 + r.below(3); const char * ty = layouts[r.below(3)];
+                    ev = {{"e", "DefaultConstruct"}, {"args", {{"s", s + 1}, {"ty", ty}, {"n", n}}}};
+                    do_step({{"op", "DefaultConstruct"}, {"args", ev["args"]}}, {});
+                    sh[s] = {"unspec", ty, n};
+                } else if ((op == 2 || op == 3) && live(s)) {
+                    json pr = project(sh)["slots"][s];
+                    auto & vals = pr["vals"];
+                    if (vals.empty()) continue;
+                    auto c = vals[r.below(vals.size())]["c"];
+                    ev = {{"e", "Write"}, {"args", {{"s", s + 1}, {"c", c}, {"v", 1 + r.below(9)}}}};
+                    do_step({{"op", "Write"}, {"args", ev["args"]}}, {});
+                } else if ((op == 4 || op == 5) && sh[d].st == "dead" && live(s) && d != s) {
+                    const char * nm = op == 4 ? "CopyCtor" : "MoveCtor";
+                    ev = {{"e", nm}, {"args", {{"d", d + 1}, {"s", s + 1}}}};
+                    do_step({{"op", nm}, {"args", ev["args"]}}, {});
+                    sh[d] = sh[s]; if (op == 5) sh[s].st = "moved";
+                } else if ((op == 6 || op == 7) && assignable(d) && live(s) && sh[d].ty == sh[s].ty && sh[d].n == sh[s].n) {
+                    const char * nm = op == 6 ? "CopyAssign" : "MoveAssign";
+                    ev = {{"e", nm}, {"args", {{"d", d + 1}, {"s", s + 1}}}};
+                    do_step({{"op", nm}, {"args", ev["args"]}}, {});
+                    if (d != s) { sh[d] = sh[s]; if (op == 7) sh[s].st = "moved"; }
+                    else if (op == 7) sh[s].st = "unspec";
+                } else if ((op == 8 || op == 9) && sh[d].st == "dead" && live(s) && d != s) {
+                    const char * ty2 = layouts[r.below(4)];
+                    if (sh[s].ty == ty2 || (std::string(ty2) == "hilbert" && sh[s].n != 2)) continue;
+                    const char * nm = op == 8 ? "Convert" : "ConvertMove";
+                    ev = {{"e", nm}, {"args", {{"d", d + 1}, {"s", s + 1}, {"ty", ty2}}}};
+                    do_step({{"op", nm}, {"args", ev["args"]}}, {});
+                    sh[d] = {"live", ty2, sh[s].n}; if (op == 9) sh[s].st = "unspec";
+                } else if (op == 10 && live(s)) {
+                    if (r.below(2)) {
+                        ev = {{"e", "Dump"}, {"args", {{"s", s + 1}}}};
+                        do_step({{"op", "Dump"}, {"args", ev["args"]}}, {});
+                        have_stream = true; stream_ty = sh[s].ty; stream_n = sh[s].n;
+                    } else if (have_stream && sh[d].st == "dead") {
+                        ev = {{"e", "Load"}, {"args", {{"d", d + 1}}}};
+                        do_step({{"op", "Load"}, {"args", ev["args"]}}, {});
+                        sh[d] = {"live", stream_ty, stream_n};
+                    } else continue;
+                } else if (op == 11 && sh[s].st != "dead" && r.below(2)) {
+                    ev = {{"e", "Destroy"}, {"args", {{"s", s + 1}}}};
+                    do_step({{"op", "Destroy"}, {"args", ev["args"]}}, {});
+                    sh[s] = shadow{};
+                } else continue;
+                ev["after"] = project(sh);
+                out << ev.dump() << "\n"; ++events;
+                break;
+            }
+        }
+        g_slots.clear();
+    }
+    g_cases = execs;
+    summary({{"events", events}});
+}
+
 int main(int argc, char ** argv) {
     install_terminate();
     std::string mode = argv[1];
+    if (mode == "drive") { drive(std::strtoull(argv[2], nullptr, 10), std::atol(argv[3]), std::atol(argv[4]), argv[5]); return 0; }
     if (mode == "replay") {
         std::ifstream in(argv[2]);
         std::string line;
